@@ -182,7 +182,8 @@ def main():
     fails, disagreements = [], []
     n = 40 if ck.tier == "quick" else 600
     n_model = 8 if ck.tier == "quick" else 60
-    option_sets = [[], ["-a"], ["-m"], [], ["-m", "443:9000"], ["-a"]]
+    # seven entries: the scenarios below come round every six cases, so every scenario meets every option set
+    option_sets = [[], ["-a"], ["-m"], [], ["-m", "443:9000"], ["-a"], []]
     def all_cases():
         for i, case in enumerate(pool.cases(rng, table, hist, n, noise_share=0.0)):
             yield case
